@@ -139,9 +139,33 @@ func (valdec mapDecoder) decodeMap(dec *Decoder, p interface{}) {
 		vp := valdec.vt.UnsafeNew()
 		valdec.decodeKey(dec, kt, kp)
 		valdec.decodeValue(dec, vt, vp)
+		if kt.Kind() == reflect.Interface && !fixInterfaceKey(dec, (*interface{})(kp)) {
+			continue
+		}
 		valdec.t.UnsafeSetIndex(mp, kp, vp)
 	}
 	dec.Skip()
+}
+
+// fixInterfaceKey makes a key decoded into interface{} usable as a map key.
+// Bytes (the form in which a string that is not valid UTF-8 travels) become a
+// string; any other unhashable key (a list or a map) is reported as an error
+// instead of panicking in the map assignment.
+func fixInterfaceKey(dec *Decoder, key *interface{}) bool {
+	switch k := (*key).(type) {
+	case nil:
+		return true
+	case []byte:
+		*key = string(k)
+		return true
+	}
+	if t := reflect.TypeOf(*key); !t.Comparable() {
+		if dec.Error == nil {
+			dec.Error = DecodeError("hprose/io: " + t.String() + " can not be a map key")
+		}
+		return false
+	}
+	return true
 }
 
 func (valdec mapDecoder) decodeObjectAsMap(dec *Decoder, p interface{}, tag byte) {
